@@ -262,7 +262,9 @@ def _real_case(col, seed, c):
             col.violation('C02/%s/oneshot-raised' % fam, '%s: the stand-alone distinguisher refused the whole set: %s %s' % (label, type(e).__name__, e), c); return
         if res.shape != one.shape:
             col.violation('C02/%s/shape' % fam, '%s: results shape %s, stand-alone one-batch shape %s' % (label, res.shape, one.shape), c); continue
-        if c['pool'] == 'exact':
+        # sums (of squares, of products) stay exactly representable only while they fit the mantissa of the accumulation precision
+        fits = float(np.abs(X.astype('float64')).max()) ** 2 * N * 4 < (2 ** 24 if prec == 'float32' and fam != 'mia' else 2 ** 53)
+        if c['pool'] == 'exact' and fits:
             col.count('bit_identical_to_oneshot')
             if not np.array_equal(res, one, equal_nan=True):
                 idx = tuple(int(t) for t in np.argwhere(~((res == one) | (np.isnan(res) & np.isnan(one))))[0])
